@@ -296,7 +296,10 @@ impl PayloadHistory {
 
     /// Pushes a new delta to the history
     fn push_delta(&mut self, delta: PayloadDelta) {
-        if self.deltas.len() == self.keep {
+        // We always need to keep the newest delta since it delivers the
+        // current serial number.
+        let keep = cmp::max(self.keep, 1);
+        while self.deltas.len() >= keep {
             let _ = self.deltas.pop_back();
         }
         self.deltas.push_front(Arc::new(delta))
